@@ -10,11 +10,11 @@ cp "$DEMO" "$PKG/zz_seed_demo_test.go"
 echo "== demo WITH change (expect FAIL)"
 go test -vet=off -count=1 -run "$PAT" "./$PKG/" > /tmp/seed-demo-with.$$ 2>&1; rcw=$?
 tail -3 /tmp/seed-demo-with.$$
-git stash -q -- $(git diff --name-only)
+git diff > /tmp/seed-patch.$$ && git checkout -q -- $(git diff --name-only)
 echo "== demo WITHOUT change (expect ok)"
 go test -vet=off -count=1 -run "$PAT" "./$PKG/" > /tmp/seed-demo-without.$$ 2>&1; rco=$?
 tail -3 /tmp/seed-demo-without.$$
-git stash pop -q
+git apply /tmp/seed-patch.$$ && rm -f /tmp/seed-patch.$$
 rm -f "$PKG/zz_seed_demo_test.go" /tmp/seed-demo-with.$$ /tmp/seed-demo-without.$$
 echo "demo_with_rc=$rcw demo_without_rc=$rco"
 echo "== pinned suite with change"
